@@ -25,7 +25,10 @@ func round3Rules() []*Rule {
 		{ID: "CACHE-2", Props: []string{"C05", "C12", "C08"}, Min: 2,
 			Doc: "only what was built without error is cached: openPage stores into the page cache exactly the page newBtree returned together with a nil error (newBtree's failures return a typed nil pointer in an interface, which is != nil), and what it finds in the cache it returns as it is",
 			Run: runCache2},
-		{ID: "ERR-5", Props: []string{"C12", "C19", "C05"}, Min: 120,
+		{ID: "CACHE-3", Props: []string{"C08", "C12", "C10"}, Min: 2,
+			Doc: "the cached sqlite_master answers like the computed one: what master() stores in the object cache holds every result it returns (the error included, unless only error-free results are cached), and the cached path returns exactly those fields",
+			Run: runCache3},
+		{ID: "ERR-5", Props: []string{"C12", "C19", "C05", "C18", "C04"}, Min: 120,
 			Doc: "an error that may be non-nil does not vanish: on every path from an error-producing call to a return, that error is established nil, returned, handed to a call (wrapped), stored, or — once established non-nil — replaced by another error that is definitely non-nil; an error that is merely compared (`err == io.EOF`) and then replaced by nil is lost",
 			Run: runErr5},
 		{ID: "HDR-raw", Props: []string{"C15", "C08", "C01", "C04"}, Min: 1,
@@ -43,7 +46,7 @@ func round3Rules() []*Rule {
 		{ID: "CONV-exact", Props: []string{"C18"}, Min: 2,
 			Doc: "text → integer: the exact strconv.ParseInt(s, 10, 64) is tried first and its value returned when it succeeds; ParseFloat (53-bit mantissa) is only the fallback",
 			Run: runConvExact},
-		{ID: "NEWCT", Props: []string{"C10", "C02", "C03", "C01"}, Min: 4,
+		{ID: "NEWCT", Props: []string{"C10", "C02", "C03", "C01", "C11"}, Min: 4,
 			Doc: "column constraints become the right keys: a column-level PRIMARY KEY is indexed (or, WITHOUT ROWID, made the key) on that column with the column's collation and the direction written on it; a column-level UNIQUE on that column, the column's collation, ascending",
 			Run: runNewCT},
 		{ID: "ROOT", Props: []string{"C01", "C02", "C03", "C04", "C13"}, Min: 6,
@@ -1158,5 +1161,110 @@ func runStateless(c *Ctx) {
 	}
 	if n == 0 {
 		c.Undecided("page types", token.NoPos, "no methods of the b-tree page types found")
+	}
+}
+
+// runCache3: master() memoises (objects, err). A second call must answer what the first answered.
+func runCache3(c *Ctx) {
+	p := c.P
+	fn := c.MustFunc("db", "(*Database).master")
+	if fn == nil {
+		return
+	}
+	// the store into the cache field: db.objectCache = &objectCache{…}
+	var st *ssa.Store
+	for _, in := range instrs(fn) {
+		if s, ok := in.(*ssa.Store); ok && fieldName(s.Addr) == "objectCache" && !isNilConst(s.Val) {
+			st = s
+		}
+	}
+	if st == nil {
+		c.Trivial("master is not memoised", fn.Pos(), "master() stores nothing into objectCache: every call reads the file")
+		c.Trivial("master cached path", fn.Pos(), "no cached path")
+		return
+	}
+	al, ok := st.Val.(*ssa.Alloc)
+	if !ok {
+		c.Undecided("master cache entry", st.Pos(), "the cached value is not a struct built in master()")
+		return
+	}
+	fields := map[string]ssa.Value{}
+	for _, r := range *al.Referrers() {
+		if fa, ok := r.(*ssa.FieldAddr); ok {
+			for _, rr := range *fa.Referrers() {
+				if s2, ok := rr.(*ssa.Store); ok && s2.Addr == ssa.Value(fa) {
+					fields[fieldName(fa)] = s2.Val
+				}
+			}
+		}
+	}
+	// the return that follows the store
+	var ret *ssa.Return
+	for _, r := range returnsOf(fn) {
+		if r.Block() == st.Block() || st.Block().Dominates(r.Block()) {
+			ret = r
+		}
+	}
+	if ret == nil {
+		c.Undecided("master cache entry", st.Pos(), "no return after the cache is filled")
+		return
+	}
+	pos := map[int]string{} // result position → cache field
+	bad := ""
+	for i, rv := range ret.Results {
+		found := ""
+		tm := &Termer{P: p}
+		for f, v := range fields {
+			// (the same variable read twice is two loads)
+			if v == rv || (tm.Term(v, emptyPS()) == tm.Term(rv, emptyPS()) && !strings.HasPrefix(tm.Term(rv, emptyPS()), "?")) {
+				found = f
+			}
+		}
+		if found != "" {
+			pos[i] = found
+			continue
+		}
+		// not kept: fine only if the cache is filled only when this result is nil
+		if isErrorType(rv.Type()) && establishedAt(fn, st.Block(), rv, nil) {
+			pos[i] = "nil"
+			continue
+		}
+		bad = fmt.Sprintf("result %d (%s) of the computing call is not kept in the cache entry (fields %v), and the entry is made whether or not it is nil", i, rv.Type(), sortedKeys(fields))
+	}
+	c.Check(bad == "", "master cache entry", st.Pos(), "the cache entry holds every result of the call that filled it %s", map[bool]string{true: "", false: "— " + bad + ": after a failed or partial read of sqlite_master the next call answers from the cache with the partial list and no error"}[bad == ""])
+	// the cached path
+	n := 0
+	for _, r := range returnsOf(fn) {
+		if r == ret || len(r.Results) != len(ret.Results) {
+			continue
+		}
+		fromCache := false
+		var probs []string
+		for i, rv := range r.Results {
+			f := ""
+			if ld, ok := rv.(*ssa.UnOp); ok && ld.Op == token.MUL {
+				if fa, ok := ld.X.(*ssa.FieldAddr); ok {
+					if ld2, ok := fa.X.(*ssa.UnOp); ok && fieldName(ld2.X) == "objectCache" {
+						f = fieldName(fa)
+						fromCache = true
+					}
+				}
+			}
+			want := pos[i]
+			switch {
+			case f != "" && f == want:
+			case f == "" && want == "nil" && isNilConst(rv):
+			default:
+				probs = append(probs, fmt.Sprintf("result %d is %s, the entry keeps it in %q", i, (&Termer{P: p}).Term(rv, emptyPS()), want))
+			}
+		}
+		if !fromCache {
+			continue
+		}
+		n++
+		c.Check(len(probs) == 0, fmt.Sprintf("master cached path#%d", n), r.Pos(), "the cached answer is the stored one %s", strings.Join(probs, "; "))
+	}
+	if n == 0 {
+		c.Fail("master cached path", fn.Pos(), "objectCache is filled but never answered from")
 	}
 }
